@@ -522,9 +522,11 @@ def c20_probe_jobs(tier):
         sets = [STD, [], STD + ["ppv_no_simd"], ["ppv_no_simd"], ["chacha_simd", "ppv_simd"], ["blake_std"], ["groestl_std"], ["chacha_no_simd", "jh_std"], ["chacha_std", "ppv_std", "chacha_simd", "ppv_simd", "blake_std", "jh_std", "groestl_std"]]
     # Groestl (not one of C03's dispatching algorithms) selects its implementation by its `std` feature and,
     # with std off, by cfg(target_feature): every C20 probe is built with it, plus one point per
-    # compile-time arm of its own ladder (sse2 = no flags, ssse3, aes)
+    # subset of the target features its ladder tests (no flags, ssse3, aes, both)
     jobs = [(fs, "", os.path.join(BUILD, "c20p-%d" % (k % 8))) for k, fs in enumerate(sets)]
+    # every subset of the target features its cfg ladder mentions (aes, ssse3; sse2 is always on)
     jobs.append(([], "-Ctarget-feature=+ssse3", os.path.join(BUILD, "c20p-tf-ssse3")))
+    jobs.append(([], "-Ctarget-feature=+aes", os.path.join(BUILD, "c20p-tf-aesonly")))
     jobs.append(([], "-Ctarget-feature=+ssse3,+sse4.1,+aes", os.path.join(BUILD, "c20p-tf-aes")))
     return jobs
 
@@ -622,7 +624,7 @@ def plan_c20(tier):
     except Machinery as e:
         viol.append(secondary_build_failure("C20", "nounroll", str(e)))
     res = dict(config="lattice", evaluations=nbuilds + total + r9["evaluations"], distinct_nontrivial=nbuilds + len(pts), exhaustive=True, violations=viol, wall_s=time.time() - t0,
-               rule="(1) for each of the 9 workspace packages the declared features (cargo metadata, incl. the implicit features of optional dependencies, 'default' excluded) are read and EVERY subset is built with cargo check --lib --no-default-features --features <subset> (minimal failing sets are reported); (2) the probe of C03, here with Groestl-224/256/384/512 added, is built with %s of the implementation-selecting features {chacha std/no_simd/simd, blake std, jh std, groestl std, ppv-lite86 std/no_simd/simd}, and with std off also for the other two arms of Groestl's compile-time ladder (-Ctarget-feature=+ssse3 and +ssse3,+sse4.1,+aes); its fingerprint must equal the all-std fingerprint, and the dispatched Machine must be the portable one exactly when a no_simd feature is on; (3) Threefish with no_unroll runs C09's and C10's domains against the model. distinct_nontrivial = lattice points built + probe points run." % ("every subset (512)" if tier == "thorough" else "9 chosen subsets"),
+               rule="(1) for each of the 9 workspace packages the declared features (cargo metadata, incl. the implicit features of optional dependencies, 'default' excluded) are read and EVERY subset is built with cargo check --lib --no-default-features --features <subset> (minimal failing sets are reported); (2) the probe of C03, here with Groestl-224/256/384/512 added, is built with %s of the implementation-selecting features {chacha std/no_simd/simd, blake std, jh std, groestl std, ppv-lite86 std/no_simd/simd}, and with std off also for every other subset of the target features Groestl's compile-time ladder tests (-Ctarget-feature=+ssse3, +aes, +ssse3,+sse4.1,+aes); its fingerprint must equal the all-std fingerprint, and the dispatched Machine must be the portable one exactly when a no_simd feature is on; (3) Threefish with no_unroll runs C09's and C10's domains against the model. distinct_nontrivial = lattice points built + probe points run." % ("every subset (512)" if tier == "thorough" else "9 chosen subsets"),
                samples=lattice[:2] + lattice[-2:] + pts[:2], extra=dict(lattice_builds=nbuilds, lattice=lattice, probe_points=pts, reference_fingerprint=ref_fp, c09_no_unroll_evaluations=r9["evaluations"]),
                assumptions=["stable toolchain and x86-64 target of this sandbox only", "supersets of a failing minimal feature set are attributed to it"])
     return finish("C20", tier, "exploration", [res], t0)
